@@ -427,6 +427,26 @@ pub fn run_cli(sc: &Scenario, renderer: &str) -> Observation {
         .env("TMPDIR", &tmp_root)
         .env("SCRUT_VERIF_SCENARIO", &sim_path)
         .env("SCRUT_VERIF_LOG", &log_path)
+        // (every other scenario: scrut itself is started with values for the variables it
+        // documents as set by scrut - what a test case gets must not depend on them)
+        .envs(if sc.sim.seed % 2 == 1 {
+            vec![
+                ("COLUMNS", "132"),
+                ("LANG", "C.UTF-8"),
+                ("LANGUAGE", "de"),
+                ("LC_ALL", "C.UTF-8"),
+                ("TZ", "Europe/Berlin"),
+                ("CDPATH", "/usr:/tmp"),
+                ("GREP_OPTIONS", "--color=always"),
+                ("TESTDIR", "/inherited/testdir"),
+                ("TESTFILE", "inherited.md"),
+                ("TESTSHELL", "/bin/false"),
+                ("SCRUT_TEST", "inherited.md:1"),
+                ("CRAMTMP", "/inherited/cramtmp"),
+            ]
+        } else {
+            vec![]
+        })
         .stdin(Stdio::null())
         .stdout(Stdio::piped())
         .stderr(Stdio::piped());
